@@ -6,6 +6,7 @@ def unsafe_decode(string):
 
 def decode(string):
   position = unsafe_decode(string)
+  validate_encoded(string)
   value = gfapy.posvalue(position)
   if value < 0:
     raise gfapy.ValueError(
